@@ -17,9 +17,9 @@ theorem cloneDefn_fields {d : Design} {D D' : Defn} {c : Nat} (h : cloneDefn d D
     · cases h
     · cases h; simp
 
-theorem pickCtr_spec {names : List String} {base : String} {fuel ctr k : Nat}
-    (h : pickCtr names base fuel ctr = some k) :
-    ctr ≤ k ∧ (base ++ uniqSuffix k) ∉ names := by
+theorem pickCtr_spec {names eids : List String} {nm eid : Option String} {fuel ctr k : Nat}
+    (h : pickCtr names eids nm eid fuel ctr = some k) :
+    ctr ≤ k ∧ candTaken names eids nm eid k = false := by
   induction fuel generalizing ctr with
   | zero => simp [pickCtr] at h
   | succ f ih =>
@@ -31,22 +31,55 @@ theorem pickCtr_spec {names : List String} {base : String} {fuel ctr k : Nat}
       exact ⟨Nat.le_refl _, by simpa using hc⟩
 
 /-- name of the copy: none for an unnamed original, otherwise `name ++ "_sdn_unique_" ++ k` with `k`
-    at least the counter and the name not yet used in the library; the counter ends above `k` -/
+    at least the counter and the name not yet used in the library; the counter never decreases -/
 theorem cloneDefn_name {d : Design} {D D' : Defn} {c : Nat} (h : cloneDefn d D = some (D', c)) :
-    (D.name = none ∧ D'.name = none ∧ c = d.ctr) ∨
+    (D.name = none ∧ D'.name = none ∧ d.ctr ≤ c) ∨
     (∃ n k, D.name = some n ∧ D'.name = some (n ++ uniqSuffix k) ∧ d.ctr ≤ k ∧ c = k + 1 ∧
        (n ++ uniqSuffix k) ∉ d.libNames D.lib) := by
   unfold cloneDefn at h
   split at h
-  · cases h; left; simp_all
-  · rename_i n hn
-    split at h
+  · rename_i hnone
+    cases h
+    simp only [Bool.and_eq_true, Option.isNone_iff_eq_none] at hnone
+    exact Or.inl ⟨hnone.1, hnone.1, Nat.le_refl _⟩
+  · split at h
     · cases h
     · rename_i k hk
       cases h
-      right
-      have := pickCtr_spec hk
-      exact ⟨n, k, hn, rfl, this.1, rfl, this.2⟩
+      have hs := pickCtr_spec hk
+      cases hn : D.name with
+      | none => exact Or.inl ⟨rfl, by simp, by omega⟩
+      | some n =>
+        right
+        refine ⟨n, k, rfl, by simp, hs.1, rfl, ?_⟩
+        have := hs.2
+        simp only [candTaken, hn, Bool.or_eq_false_iff] at this
+        simpa using this.1
+
+/-- identifier of the copy: absent like the original's, otherwise `eid ++ "_sdn_unique_" ++ k` whose
+    case-folded form is not yet an identifier of the library -/
+theorem cloneDefn_eid {d : Design} {D D' : Defn} {c : Nat} (h : cloneDefn d D = some (D', c)) :
+    (D.eid = none ∧ D'.eid = none) ∨
+    (∃ e k, D.eid = some e ∧ D'.eid = some (e ++ uniqSuffix k) ∧ lowerStr (e ++ uniqSuffix k) ∉ d.libEids D.lib) := by
+  unfold cloneDefn at h
+  split at h
+  · rename_i hnone
+    cases h
+    simp only [Bool.and_eq_true, Option.isNone_iff_eq_none] at hnone
+    exact Or.inl ⟨hnone.2, hnone.2⟩
+  · split at h
+    · cases h
+    · rename_i k hk
+      cases h
+      have hs := pickCtr_spec hk
+      cases he : D.eid with
+      | none => exact Or.inl ⟨rfl, by simp⟩
+      | some e =>
+        right
+        refine ⟨e, k, rfl, by simp, ?_⟩
+        have := hs.2
+        simp only [candTaken, he, Bool.or_eq_false_iff] at this
+        simpa using this.2
 
 /-! ### `makeUnique` -/
 
